@@ -216,6 +216,27 @@ call P(
 """
 
 
+
+# resource requests: every sign and magnitude class the printer of GB values distinguishes
+# (whole, fractional below and above 1 GB, negative = "adaptive", exponent spellings)
+RES_VALUES = ["0", "1", "3", "0.5", "0.25", "0.001", "1.5", "2.75", "1024", "100000", "-1", "-2", "-16", "-0.5", "-0.25",
+              "-0.001", "-1.5", "-2.5", "-0.0009765625", "0.0009765625", "1e-3", "3e0", "-5e-1", "12.125", "-12.125",
+              "12.13", "0.07", "-0.07", "1.15", "100.01"] + ["%d.%02d" % (k // 100, k % 100) for k in range(1, 1300, 37)]
+
+
+def resource_programs():
+    out = []
+    for i, v in enumerate(RES_VALUES):
+        for key in ("mem_gb", "vmem_gb", "threads"):
+            if key == "threads" and ("e" in v):
+                continue
+            src = ("stage S(\n    in  int x,\n    out int y,\n    src py \"s\",\n) using (\n    %s = %s,\n)\n\n"
+                   "stage T(\n    in  int x,\n    out int y,\n    src py \"t\",\n) split (\n    in  int c,\n) using (\n    %s = %s,\n    volatile = strict,\n)\n"
+                   % (key, v, key, v))
+            out.append({"id": "res%d:%s=%s" % (i, key, v), "files": {"p.mro": src}, "top": "p.mro"})
+    return out
+
+
 def every_line(src, tag):
     """the source with one comment inserted before each line in turn (and at the end)"""
     lines = src.split("\n")
@@ -234,6 +255,7 @@ def corpus(tier, repo="/repo"):
         out.append({"id": "lit%d:%s" % (i, lit[:20]), "files": {"p.mro": literal_program(i, lit)}, "top": "p.mro"})
     for i, s in enumerate(HELPS + MODIFIER_SYNTAXES + COMMENTED + EMPTY_CLAUSES):
         out.append({"id": "hand%d" % i, "files": {"p.mro": s}, "top": "p.mro"})
+    out += resource_programs()
     out += include_graphs()
     out += repo_sets(repo)
     progs = shapes.catalogue() + fshapes.catalogue() + [gen.gen_program(s) for s in range(20 if tier == "quick" else 200)]
